@@ -7,6 +7,10 @@
 "GREATER_THAN_OR_EQUAL", "LESS_THAN_OR_EQUAL", "REGEX").  The test is always
 "haystack OP needle" (README: `hash[access_level>0]`).
 
+Numeric rules look at the values the operands stand for (`typed`); every textual
+rule (prefix/suffix/substring, regular expression, textual equality, lexicographic
+order) acts on the value's own text `str(haystack)`.
+
 Pre-condition (the statement's "well-formed term"): `needle` is a `str`; for the
 five order/equality methods it may also be any scalar (the keyword scans pass
 document values); for REGEX it is a valid pattern.
@@ -56,7 +60,7 @@ def is_number(v):
 def spec_search_matches(method_name, needle, haystack):
     th = typed(haystack)
     tn = typed(needle)
-    text = str(th)
+    text = str(haystack)      # the value's own text: textual rules never see the typed value
     if method_name == "EQUALS":
         if isinstance(th, bool) and isinstance(tn, bool):
             return th == tn
